@@ -137,6 +137,19 @@ func runSchedule(t *rapid.T, r *rec.Recorder) {
 			}
 			coins := sdk.NewCoins(sdk.NewCoin(d, amt))
 			kit.Must(app.BankKeeper.MintCoins(ctx, aggregatetypes.ModuleName, coins), "mint")
+			_, poolIsModuleAccount := app.AccountKeeper.GetAccount(ctx, pool).(authtypes.ModuleAccountI)
+			plainAccountAtPool := app.AccountKeeper.GetAccount(ctx, pool) != nil && !poolIsModuleAccount
+			// (once an ordinary account sits at the pool address the SDK's module-to-module transfer panics on it, so further
+			// top-ups have to be plain transfers too)
+			if plainAccountAtPool || rapid.IntRange(0, 2).Draw(t, "plainTransfer") == 0 {
+				// the pool is an address like any other: coins can reach it by a plain transfer (a keeper-level send or a genesis
+				// balance), which creates an ordinary account there if the module account does not exist yet
+				donor := c.Accounts[1].Acc
+				kit.Must(app.BankKeeper.SendCoinsFromModuleToAccount(ctx, aggregatetypes.ModuleName, donor, coins), "fund donor")
+				kit.Must(app.BankKeeper.SendCoins(ctx, donor, pool, coins), "plain transfer to the pool address")
+				history = append(history, stepLog{Op: "topUp(plain transfer)", Arg: coins.String()})
+				return
+			}
 			kit.Must(app.BankKeeper.SendCoinsFromModuleToModule(ctx, aggregatetypes.ModuleName, rvestingtypes.ModuleName, coins), "fund pool")
 			history = append(history, stepLog{Op: "topUp", Arg: coins.String()})
 		},
